@@ -3,7 +3,14 @@ Model of `luna.gateware.usb.usb3.endpoints.stream.SuperSpeedStreamInEndpoint` (C
 as repaired by the six `fix:` commits on branch wt-ssep (header fields driven in every state, sequence
 number advanced on every accepting ACK and never on a retry, last word held until tx.ready, NRDY for an
 ACK+IN request without data, release of a packet that ended while waiting for the ACK, erdy_required
-cleared once the ERDY has been sent).
+cleared once the ERDY has been sent) and the two on branch wt-c46b (`erdy_in_flight`: only a `done` that
+follows the generator's acceptance of the ERDY request counts; `handshakes_out.endpoint_number` driven).
+
+The model has two layers.  `State`/`In`/`control`/`next`/`out` is the endpoint with the completion of its
+ERDY as an input (`In.done`); `HsState`/`HsIn`/`nextHs`/`outHs` (end of this file) is the endpoint as it
+is wired: `handshakes_out.ready`, the raw `handshakes_out.done` and the register `erdy_in_flight`, with
+`In.done := handshakes_out.done & erdy_in_flight` exactly as REQUEST_IN_TOKEN evaluates it.  The driver and
+the co-simulation use the `Hs` layer.
 
 Two ping-pong word buffers (`Memory`, synchronous non-transparent read ports: `rd0`/`rd1` hold the
 word addressed in the previous cycle), fill counts in bytes, `stream_ended` flags, the 5-bit
@@ -33,7 +40,7 @@ structure In where
   retry   : Bool     -- handshakes_in.retry_required
   nextSeq : Nat      -- handshakes_in.next_sequence (5)
   nump    : Nat      -- handshakes_in.number_of_packets (5)
-  done    : Bool     -- handshakes_out.done
+  done    : Bool     -- `handshakes_out.done & erdy_in_flight`: the ERDY requested in REQUEST_IN_TOKEN is complete
   epReset : Bool
 deriving Repr
 
@@ -198,5 +205,49 @@ def next (c : Config) (s : State) (i : In) : State :=
     erdyReq := if k.clrErdy then false else s.erdyReq || k.setErdy }
 
 def step (c : Config) (s : State) (i : In) : State × Out := (next c s i, out c s i)
+
+/-! ## The endpoint as wired to the transaction packet generator
+
+```
+with m.State("REQUEST_IN_TOKEN"):
+    m.d.comb += handshakes_out.send_erdy.eq(1)
+    with m.If(handshakes_out.ready):
+        m.d.ss += erdy_in_flight.eq(1)
+    with m.If(handshakes_out.done & erdy_in_flight):
+        m.d.ss += [erdy_required.eq(0), erdy_in_flight.eq(0)]
+        m.next = "WAIT_TO_SEND"
+```
+`handshakes_out.done` is pulsed by the generator for every packet it completes (also the NRDY this endpoint
+requested a moment ago, also packets of other endpoints); `handshakes_out.ready` is high in the cycles in
+which the generator takes a request.  `erdy_in_flight` is touched in REQUEST_IN_TOKEN only. -/
+
+structure HsIn where
+  base  : In        -- `base.done` = handshakes_out.done (raw)
+  ready : Bool      -- handshakes_out.ready
+deriving Repr
+
+structure HsState where
+  core   : State
+  flight : Bool     -- erdy_in_flight
+deriving Repr, DecidableEq
+
+def initHs (c : Config) : HsState := ⟨init c, false⟩
+
+/-- the inputs as the FSM evaluates them: `done` counts only while `erdy_in_flight` -/
+def effIn (s : HsState) (i : HsIn) : In := { i.base with done := i.base.done && s.flight }
+
+def nextHs (c : Config) (s : HsState) (i : HsIn) : HsState :=
+  { core := next c s.core (effIn s i)
+    flight := if s.core.fsm = .reqIn then (if i.base.done && s.flight then false else s.flight || i.ready)
+              else s.flight }
+
+structure HsOut where
+  base : Out
+  hsEp : Nat        -- handshakes_out.endpoint_number (7 bit), driven in every state
+deriving Repr
+
+def outHs (c : Config) (s : HsState) (i : HsIn) : HsOut := ⟨out c s.core (effIn s i), c.ep % 128⟩
+
+def stepHs (c : Config) (s : HsState) (i : HsIn) : HsState × HsOut := (nextHs c s i, outHs c s i)
 
 end LunaVerif.SSStreamIn
